@@ -84,3 +84,13 @@ def alarm_filter(stream, case, impl_out, model_out):
     if canon(a) == canon(b) and impl_out[:-1] == model_out[:-1]:
         return False, ["evaluation order among independent nodes differs (rank tie-break)"]
     return True, []
+
+
+def valid_case(stream, case, impl_out, model_out):
+    """shrink candidates must stay well-formed programs (the wiring accepts them on both sides)"""
+    for o in (impl_out, model_out):
+        if o is None:
+            continue
+        if any(("build-err" in l) or ("bad-op" in l) or l.startswith("<") for l in o):
+            return False
+    return any(l == "run" for l in case.lines)
